@@ -6,7 +6,8 @@
    Collection.getX and the row order of the dataframe; equality of the NUMBERS across interfaces is not a theorem
    (the field cores are not modelled) -- it is the search oracle of harness/props/C07.py. *)
 From Coq Require Import ZArith List Bool String.
-From MV Require Import Model.InputTypes Gen.GenTables Model.DictIface Proofs.DictIfaceProofs.
+From MV Require Import Model.InputTypes Gen.GenTables Gen.GenIfaces Model.DictIface Proofs.DictIfaceProofs
+  Proofs.IfacesProofs.
 Import ListNotations.
 Open Scope Z_scope.
 
@@ -85,6 +86,36 @@ Theorem C07_role_inference : forall (self : mobj) (n_inputs : nat),
      validate_getBH_inputs self n_inputs = VRoles ASelf (if Nat.eqb n_inputs 1 then AInput0 else AInputs)).
 Proof. exact role_inference. Qed.
 Print Assumptions C07_role_inference.
+
+(* the decision function TRANSLATED from BaseCollection._validate_getBH_inputs on this run equals the hand model, on
+   every collection tree and every number of inputs (so the theorem above speaks about the code as it is now) *)
+Theorem C07_role_inference_translated : forall (self : mobj) (n : nat),
+  gen_validate (negb (is_nil (flat_sensors self))) (negb (is_nil (flat_sources self))) n
+  = validate_getBH_inputs self n.
+Proof. exact gen_validate_model. Qed.
+Print Assumptions C07_role_inference_translated.
+
+(* the 16 entry points (getB/H/J/M of the module, BaseSource, Sensor, BaseCollection), as READ from the source on this
+   run: each is a single `return getBH_level2(...)`; the field is the letter in the method's name; for every flag
+   (sumup, squeeze, pixel_agg, output, in_out) getBH_level2 receives what the caller gave, or the one common default
+   when the caller gave nothing or the entry point has no such parameter *)
+Theorem C07_wrappers_forward : forall r, In r wrappers -> forall (env : caller), accepts r env ->
+  w_method r = ("get" ++ w_field r)%string /\
+  forall k dflt, In (k, dflt) level2_flags ->
+    passed r env k = match env k with Some v => v | None => dflt end.
+Proof. exact wrappers_forward. Qed.
+Print Assumptions C07_wrappers_forward.
+
+Theorem C07_wrappers_table : forallb wrapper_ok wrappers = true /\ wrappers_complete wrappers = true.
+Proof. exact wrappers_ok. Qed.
+Print Assumptions C07_wrappers_table.
+
+(* the dataframe assembly in the source has the iterables / columns / sumup condition the model assumes *)
+Theorem C07_dataframe_source_order :
+  df_product = df_product_expected /\ df_columns = df_columns_expected /\
+  df_sumup_cond = "sumup and len(sources) > 1"%string /\ star_input_single_is_bare = true.
+Proof. exact df_source_order. Qed.
+Print Assumptions C07_dataframe_source_order.
 
 (* product(source, path, sensor, pixel) next to B.reshape(-1, 3): row ((l*M+m)*K+k)*P+p carries the labels
    (source l, path m, sensor k, pixel p) and the value B[l][m][k][p], for every (L,M,K,P) array *)
